@@ -58,6 +58,7 @@ def cases(draw, tier="quick"):
     c["conn_lost"] = draw(st.sampled_from([None, None, None, 0.0, 0.4, 0.99]))
     if c["kind"] == "directory":
         member = st.one_of(st.sampled_from(BENIGN), st.sampled_from(HOSTILE),
+                           st.sampled_from(HOSTILE).map(lambda n: n.rstrip("/") + "/"),      # hostile DIRECTORY entries
                            st.sampled_from(["sub/inner.txt", "sub/", "sub", "a/b/c", "a", "a/b", "dir1/", "x.tmp", "%SIBLING%", "%SIBLING%"]))
         c["members"] = draw(st.lists(st.tuples(member, st.sampled_from([0, 0o644, 0o755, 0o40755, 0o100600])).map(list),
                                      max_size=5))
